@@ -62,13 +62,14 @@ CLAIMED = {
         "technique": "typestate / dominance rules on every store to NC.numrecs and every ncmpio_write_numrecs call "
                      "(path-sensitive abstract interpretation with event flags), call-graph reachability of the "
                      "synchronisation points, loop-range pairing of the request queues",
-        "text": "Decides seven structural necessary conditions: after each header update of the record count every "
+        "text": "Decides eight structural necessary conditions: after each header update of the record count every "
                 "path makes the in-memory count >= the written value on all ranks; the written value is "
                 "Allreduce(MAX)-derived when nprocs > 1 (incl. the do_io[3] slot of the wait path); each of the ~13 "
                 "stores to NC.numrecs is guarded old<new / MAX-reduced / a listed initialisation (monotone); growth "
                 "without a header write marks NC_NDIRTY; a put ending with NC_ERANGE still grows the count; "
                 "end_indep_data/sync/redef/close reach ncmpio_sync_numrecs; the newnumrecs scan covers the whole "
-                "pending queue. Equality of the count across ranks at run time and the on-disk value are not decided.",
+                "pending queue; the header snapshot of a redefinition is taken after the record count has been "
+                "synchronised. Equality of the count across ranks at run time and the on-disk value are not decided.",
         "note": "assume_mpi_ok for communication calls; field NC.numrecs identified by struct/field identity from clang.",
         "design_ref": "DESIGN.md section 3 / C05",
     },
@@ -137,14 +138,17 @@ CLAIMED = {
         "technique": "typestate abstract interpretation of the put pipelines (swap / swap-back pairing with argument "
                      "identity, flag-iff-alias rule), structural guard rules at the three retire sites, sibling "
                      "agreement of a decision tree, allocator-accounting typestate and who-may-write rule",
-        "text": "Decides five structural clauses: blocking puts (put_varm, getput_vard) undo every in-place byte swap "
+        "text": "Decides six structural clauses: blocking puts (put_varm, getput_vard) undo every in-place byte swap "
                 "of the user buffer with the identical element count and size on every path to a return; the "
                 "nonblocking posts record NC_REQ_BUF_BYTE_SWAP exactly when the user buffer itself is handed on with a "
                 "swap pending; the three retire sites test that flag and swap back (buf, nelems, varp->xsz) of the same "
                 "request; the four put paths decide in-place swapping by the same tree (hint off / on / size threshold); "
                 "attached-buffer accounting (NC_EINSUFFBUF test dominates allocation, failed pack releases the slot, "
-                "every release reaches abuf_coalesce, size_used has only the listed writers). It does not decide that "
-                "a read touches exactly the selected bytes.",
+                "every release reaches abuf_coalesce, size_used has only the listed writers, usage counter and "
+                "table tail are reset together); every MPI type constructor that can leave gaps between elements is "
+                "decoded as non-contiguous by ncmpii_dtype_decode (otherwise pack/unpack are skipped and the gaps of the "
+                "caller's buffer are read or overwritten). It does not decide in general that a read touches exactly "
+                "the selected bytes.",
         "note": "MPI calls and allocations succeed; read requests never own attached-buffer space (bget does not exist).",
         "design_ref": "DESIGN.md section 3 / C13",
     },
@@ -160,7 +164,8 @@ CLAIMED = {
                 "same width; hash-table sizes taken from hints are rejected unless >= 1; loops over the request queues "
                 "stay inside the queue; a type code from the header is accepted exactly for 1..6 (CDF-1/2) or 1..11 "
                 "(CDF-5); and, over ~960 library functions with interprocedural release summaries per return-value "
-                "class, no heap object is released twice or dereferenced after release on any explored path (a bound "
+                "class, no heap object is released twice or dereferenced after release on any explored path; no "
+                "scalar local is read across a goto taken before its initialisation (a bound "
                 "on a word already converted to a signed or narrower type does not count as a bound on the word). It "
                 "does not decide absence of undefined behaviour in general, typed access to byte-sliced buffers, or "
                 "resource proportionality; 7 oversized functions are outside the release analysis (frozen list).",
@@ -179,7 +184,8 @@ CLAIMED = {
                 "rule on a bounded grid (bounded only - it uses arithmetic); vars_flatten turns a request into "
                 "exactly the byte ranges of the addressed elements in packed-buffer order, and merge_requests keeps "
                 "exactly the requested bytes, sorted and disjoint, first request winning (both bounded, against "
-                "independent models): writes stay inside the requested region. Offset arithmetic of accepted requests "
+                "independent models), and a request classified contiguous by is_request_contiguous is one run of "
+                "consecutive elements (every request of six small shapes): writes stay inside the requested region. Offset arithmetic of accepted requests "
                 "beyond these slices is not decided.",
         "note": "mput/mget examined with nvars >= 1; nprocs > 1 on the collective zero-length branch.",
         "design_ref": "DESIGN.md section 3 / C15",
@@ -217,14 +223,16 @@ CLAIMED = {
         "technique": "table agreement on the per-format limits (constants evaluated by clang), structural rule on the "
                      "'one too-large variable, last' passes, dominance rule on the CDF-1 offset test, type-based "
                      "narrowing-cast rule with guard recognition over the geometry functions, comparator rule",
-        "text": "Decides six structural clauses: the per-format maximum variable sizes (2^63-4, 2^32-4, 2^31-4) and their "
+        "text": "Decides seven structural clauses: the per-format maximum variable sizes (2^63-4, 2^32-4, 2^31-4) and their "
                 "guards in ncmpio_NC_check_vlens; the 'at most one too-large variable and it must be last' structure "
                 "of both passes; that in both passes of NC_begins the value stored as a variable's offset is itself "
                 "tested against 2^31-1 for CDF-1; the ncmpi_def_dim limits; that every 64->32 bit conversion in 30 "
                 "offset/geometry functions is range-guarded (limit test on the right edge, round-trip test, flag from "
                 "an NC_MAX_INT scan, clamp, or a listed reasoned site); that qsort comparators do not return a truncated "
-                "64-bit difference. Correctness of the layout decision over all variable sequences, and data placement "
-                "at large offsets, are not decided; the intra-node aggregation layer is outside the narrowing rule.",
+                "64-bit difference; that type_create_subarray64, interpreted with the MPI type constructors "
+                "replaced by their definitions over explicit type maps, builds exactly the type map, lower bound and "
+                "extent of MPI_Type_create_subarray when a dimension exceeds 2^31-1 (bounded family of requests). "
+                "Correctness of the layout decision over all variable sequences is not decided; the intra-node aggregation layer is outside the narrowing rule.",
         "note": "LP64 build; guard recognition is syntactic-structural (dominating comparison on the same expression text).",
         "design_ref": "DESIGN.md section 3 / C18, rules R10, R12",
     },
